@@ -175,6 +175,13 @@ def _prologue_template(facts):
         for s in lits:
             if "__CSI_METHODS__" in s and len(s) > 20:
                 return s
+    # a constant of the crate
+    for c in facts.get("consts") or []:
+        if c.get("gen") or "body" not in c:
+            continue
+        for n in hir.walk(c["body"]):
+            if n.get("k") == "Lit" and n["lit"]["t"] == "str" and "__CSI_METHODS__" in n["lit"]["v"] and len(n["lit"]["v"]) > 20:
+                return n["lit"]["v"]
     return None
 
 
@@ -200,7 +207,7 @@ def _run_jsfacts(repo, facts, out_json):
 
 _cache = {}
 # bump when the derivation of the JS-side facts changes (cached files of older versions are ignored)
-JS_FACTS_VERSION = 2
+JS_FACTS_VERSION = 3
 
 
 def get_facts(repo=REPO, direct_ref=None):
